@@ -149,3 +149,21 @@ META["C11"] = {"level": "exploration",
 LEVEL_TEXT["C11"] = ("Seeded exploration of scripted playlist histories and network latencies against the real client; the ordered "
    "request log is checked request by request against the rule derived from the statement. Sampling of histories.")
 NOT_APPLICABLE.pop("C11", None)
+
+META["C12"] = {"level": "fault_enumeration",
+   "rule": "fault-sweep profile: for each sampled scenario (stub origin: container, mode, renditions, byte ranges, latencies) one fault is placed at every request index 0..39 in turn for each of the kinds status != 200, transport error and stalled body (followed by a user Close), plus an OnTracks error: 160 runs per scenario. close-sweep profile: for each sampled scenario Close is placed at every scheduler event 1..200 in turn (1-3 Close calls, optionally racing an injected fault; positions past the end close after EOS). Non-trivial = the fault fired / a Close was placed; distinct = distinct signatures of scenario + position + observations.",
+   "real": CLI_REAL, "stub": CLI_STUB,
+   "assumptions": CLI_ASSUME + ["scenarios (origins, latencies) are sampled; within a scenario the fault position and the Close position are enumerated exhaustively up to the stated bounds (40 requests, 200 events)",
+                                "goroutine leaks are decided from runtime.Stack of all goroutines filtered to gohlslib client frames, at rest, after Wait yielded"]}
+LEVEL_TEXT["C12"] = ("Fault enumeration: per sampled scenario, every request index up to 40 receives each fault kind in turn and every "
+   "scheduler event up to 200 receives a Close in turn; after Wait yields the harness checks single delivery (30 simulated seconds "
+   "of silence), error identity, absence of client goroutines and of later callbacks. Scenarios themselves are sampled.")
+NOT_APPLICABLE.pop("C12", None)
+
+META["C10"] = {"level": "exploration",
+   "rule": "each run draws a well-formed stream model (MPEG-TS or fMP4; 1 video + 0..2 audio in one playlist or 1-3 audio renditions with other timescales; base times 0..2^40 for fMP4 and anywhere on the 33-bit circle incl. a wrap inside the stream for MPEG-TS; B-frame style PTS offsets; 1..24 fragments per segment; whole-file or byte-range addressing; with/without PROGRAM-DATE-TIME; VOD, EVENT and live) and network latencies 0..500 ms; the expected delivery is computed from the model and compared unit by unit. Non-trivial = tracks were reported; distinct = distinct signatures of origin + latencies.",
+   "real": CLI_REAL, "stub": CLI_STUB, "assumptions": CLI_ASSUME + ["fault-free network in this property's profile"]}
+LEVEL_TEXT["C10"] = ("Seeded exploration of synthesized streams; tracks, bytes, order, normalised DTS/PTS (+-1 tick across timescales), "
+   "dropping of units before the origin and AbsoluteTime are compared with a model of the stream, and an ending stream must end "
+   "with ErrClientEOS within a bounded simulated time. Sampling of inputs.")
+NOT_APPLICABLE.pop("C10", None)
